@@ -5,6 +5,7 @@ import (
 	"bytes"
 	"encoding/json"
 	"fmt"
+	"io"
 	"os"
 	"strings"
 	"testing"
@@ -25,6 +26,7 @@ func init() {
 	harness.RegisterReplay("adtsvariant", harness.Replayer(checkADTSVariant))
 	harness.RegisterReplay("aacentrybox", harness.Replayer(checkEntryBox))
 	harness.RegisterReplay("aacentrymulti", harness.Replayer(checkAACEntryMulti))
+	harness.RegisterReplay("adtsstream", harness.Replayer(checkADTSStream))
 	// development aid: VERIF_C18_NOAVOID=all or a comma-separated list of switch names
 	if v := os.Getenv("VERIF_C18_NOAVOID"); v == "all" {
 		avoidKnown = map[string]bool{}
@@ -517,6 +519,55 @@ func checkADTSJunk(c junkCase) *harness.Fail {
 	return nil
 }
 
+// streamCase: ADTS frames (header + payload of the announced length) behind each other, read with one reader.
+type streamCase struct {
+	Frames []adtsCase `json:"frames"`
+	Junk   int        `json:"junk"` // bytes (0x11) in front of the first frame
+}
+
+func checkADTSStream(c streamCase) *harness.Fail {
+	var stream []byte
+	for i := 0; i < c.Junk; i++ {
+		stream = append(stream, 0x11)
+	}
+	var payloads [][]byte
+	for fi, f := range c.Frames {
+		stream = append(stream, refADTS(f)...)
+		p := make([]byte, f.PayloadLen)
+		for i := range p {
+			p[i] = byte(1 + (i*7+fi*31)%0xfd) // never ff: no accidental sync pattern inside a payload
+		}
+		payloads = append(payloads, p)
+		stream = append(stream, p...)
+	}
+	r := bytes.NewReader(stream)
+	for fi, f := range c.Frames {
+		h, off, err := aac.DecodeADTSHeader(r)
+		if err != nil {
+			return harness.Failf("C18|adtsstream|decode-error", "frame %d of %d on one reader: %v", fi, len(c.Frames), err)
+		}
+		wantOff := 0
+		if fi == 0 {
+			wantOff = c.Junk
+		}
+		if off != wantOff {
+			return harness.Failf("C18|adtsstream|offset", "frame %d of %d on one reader: sync word reported at offset %d, expected %d (the reader stood right behind the payload of the previous frame)", fi, len(c.Frames), off, wantOff)
+		}
+		wh, ok := refParse(refADTS(f))
+		if !ok || *h != wh {
+			return harness.Failf("C18|adtsstream|header", "frame %d: header %+v, written %+v", fi, *h, wh)
+		}
+		got := make([]byte, h.PayloadLength)
+		if _, err := io.ReadFull(r, got); err != nil {
+			return harness.Failf("C18|adtsstream|payload", "frame %d: reading the %d payload bytes behind the header from the same reader: %v", fi, h.PayloadLength, err)
+		}
+		if !bytes.Equal(got, payloads[fi]) {
+			return harness.Failf("C18|adtsstream|payload", "frame %d: the %d bytes behind the decoded header are not the payload that was written (the reader is not positioned right behind the header): got %s, want %s", fi, len(got), harness.HexTrunc(got, 16), harness.HexTrunc(payloads[fi], 16))
+		}
+	}
+	return nil
+}
+
 func TestADTSJunk(t *testing.T) {
 	// reduced header set x every junk length 0..187 x fill patterns
 	hdrs := []adtsCase{{2, 3, 2, 0, 0x7ff, false}, {2, 4, 1, 371, 0x7ff, false}, {1, 0, 7, 8184, 0, false}, {4, 15, 0, 1, 0x3ff, false}, {3, 11, 6, 4095, 1, false}}
@@ -610,6 +661,27 @@ func TestADTSJunk(t *testing.T) {
 		}
 	}
 	harness.Rec.Exhaustive("ADTS junk: 5 headers x junk length 0..187 x 12 fill patterns")
+	// frames in sequence on ONE reader (what a demultiplexer does): header, payload, header, payload, ...; every
+	// header is found at offset 0 and the payload bytes are the ones that were written
+	var ns int64
+	for a := range hdrs {
+		for b := range hdrs {
+			for _, junk := range []int{0, 1, 9} {
+				idx++
+				if idx%harness.E.NShards != harness.E.Shard {
+					continue
+				}
+				c := streamCase{Frames: []adtsCase{hdrs[a], hdrs[b], hdrs[(a+b+1)%len(hdrs)]}, Junk: junk}
+				ns++
+				if harness.Rec.WantSample() && a == 1 && b == 2 && junk == 0 {
+					harness.Rec.Sample(map[string]interface{}{"kind": "adtsstream", "case": c})
+				}
+				harness.ReportDirect(t, "adtsstream", c, harness.Guarded(func() *harness.Fail { return checkADTSStream(c) }))
+			}
+		}
+	}
+	harness.Rec.BulkDistinct(ns, ns, "adts-frames-in-sequence-on-one-reader")
+	harness.Rec.Exhaustive("ADTS frames in sequence: every ordered pair of 5 headers (+ a third) x leading junk {0,1,9}")
 }
 
 // ---------------------------------------------------------------------------------------------
